@@ -12,6 +12,7 @@ import (
 	"fmt"
 	"math/rand"
 	"testing"
+	"time"
 
 	"github.com/gocql/gocql/internal/streams"
 )
@@ -116,7 +117,11 @@ func vfC03ViaConn(c *vfC03Case) (out []byte, errText string, ok bool) {
 		err = s.authenticateHandshake(ctx, &authenticateFrame{class: "org.apache.cassandra.auth.PasswordAuthenticator"})
 	case "BATCH":
 		if c.V == 1 {
-			if m := vfC03Refusal(func() error { return conn.executeBatch(ctx, &Batch{}).err }); m != "" && !w.wrote {
+			// the guard in front of writeBatchFrame, asked on a connection of its own
+			pc, pw, pctx := vfC03StubConn(c.V, comp)
+			m := vfC03Refusal(func() error { return pc.executeBatch(pctx, (&Batch{}).WithContext(pctx)).err })
+			pc.cancel()
+			if m != "" && !pw.wrote {
 				return nil, m, true
 			}
 		}
@@ -187,7 +192,22 @@ func TestVfC03ConnPath(t *testing.T) {
 		}
 		c.Stream = g.pick(0, 0, 1, 5, 60, 126) // ids to occupy first
 		vfC03Norm(c)
-		b, e, ok := vfC03ViaConn(c)
+		type res struct {
+			b  []byte
+			e  string
+			ok bool
+		}
+		ch := make(chan res, 1)
+		go func() { b, e, ok := vfC03ViaConn(c); ch <- res{b, e, ok} }()
+		var b []byte
+		var e string
+		var ok bool
+		select {
+		case r := <-ch:
+			b, e, ok = r.b, r.e, r.ok
+		case <-time.After(20 * time.Second): // a request that never returns is not C03's subject
+			ok = false
+		}
 		if !ok {
 			skipped++
 			continue
